@@ -2,8 +2,8 @@
 import json
 import re
 
-from .lib import (PLUMBING, callee_allow, callers, closure_args_of_call, const_int, operand_local, status_const_of_ctor, try_edges)
-from .lib_c10 import (MEMBER_FROM_REQUEST, TOP_FROM_REQUEST, closure_site, extraction_region, generic_route_handler, impl_fns,
+from .lib import (PLUMBING, callee_allow, callers, closure_args_of_call, const_int, http_error_ctors_on_error_path, operand_local, result_split, status_const_of_ctor, try_edges)
+from .lib_c10 import (HANDLER_CALL, MEMBER_FROM_REQUEST, TOP_FROM_REQUEST, census_owners, closure_site, lift_site, extraction_region, generic_route_handler, impl_fns,
                       load_panic_table, norm_id, panic_sites, result_guards, tuple_arity, upvar_fields, upvar_origin, upvar_params)
 
 LEVEL = "other"
@@ -18,7 +18,7 @@ LEVEL_TEXT = ("Decides on the type-checked MIR of the current tree: (R1) the onl
               "decode helpers, the crate's serde Deserializer/…Access impls, page-token decoding, the generic RouteHandler) every HttpError is built by a "
               "ClientErrorStatusCode-typed constructor with an evaluated 4xx constant — never for_internal_error / for_unavail / for_not_found / a struct literal; "
               "(R4) every potential panic site in that region (panic!/unreachable!/unimplemented!/assert!, unwrap/expect family, Index calls, listed panicking std APIs, "
-              "MIR Assert terminators) is on a reviewed table with a reason, keyed by (function, kind, callee) with multiplicity; (R5) for all 16 pairs of "
+              "MIR Assert terminators) is on a reviewed table with a reason, keyed by (enclosing named function — closures and async bodies count for the function they are written in —, kind, callee) with multiplicity; (R5) for all 16 pairs of "
               "(endpoint's expected body content type, request's content type) the typed-body decoder is reached iff the pair is (Json,Json) or (UrlEncoded,UrlEncoded), "
               "each with its own parser, and every other pair returns without building a TypedBody. "
               "Not decided: what serde / serde_json / serde_urlencoded / derived Deserialize impls do with each malformed value (third-party; trusted to return Err), "
@@ -48,13 +48,15 @@ def r1_short_circuit(ctx):
     R = ctx.rule("C10.R1", "the single call of HttpHandlerFunc::handle_request is dominated by the Continue edge of `?` on RequestExtractor::from_request(&rqctx, request).await, "
                  "its parameter tuple is that edge's payload, and the Break edge reaches no handler call", floor=10)
     ds = ctx.ds
-    sites = callers(ds, r"handler::HttpHandlerFunc::handle_request$")
+    sites = [lift_site(ds, g, bb, t) for g, bb, t in callers(ds, HANDLER_CALL)]
     top, hb = generic_route_handler(ctx, R)
     ctx.check(R, "single-handler-call-site", len(sites) == 1 and hb is not None and sites[0][0] is hb,
               "HttpHandlerFunc::handle_request is called from: %s (want exactly the generic RouteHandler impl)" % sorted(set(f.id for f, _, _ in sites)), hb)
     if hb is None or len(sites) != 1:
         return
-    _, hbb, ht = sites[0]
+    # hbb: the block of the handler call in the generic handler (or of the call of the async helper that makes it);
+    # hargs[k]: (slices walked inside such a helper, operand in the generic handler) of the handler call's k-th argument
+    _, hbb, hargs = sites[0]
     ex = hb.live_calls(TOP_FROM_REQUEST)
     all_ex = callers(ds, TOP_FROM_REQUEST)
     ctx.check(R, "single-extraction-site", len(ex) == 1 and len(all_ex) == 1,
@@ -104,17 +106,23 @@ def r1_short_circuit(ctx):
     # the error edge returns the extractor's error (converted), not a fresh one
     ctors = [bb for bb, t in hb.live_calls(ANY_CTOR)] + [b for b, _, s in hb.aggregates(r"^error::HttpError$")]
     ctx.check(R, "generic-handler-builds-no-error", not ctors, "HttpError constructor calls / literals in the generic handler: %d" % len(ctors), hb)
-    ps = hb.slice(ht["args"][2])
-    badp = callee_allow(ps, chain)
-    lits = [a for a in ps.atoms if a[0] in ("lit", "const")]
-    ctx.check(R, "handler-params-are-the-extracted-value", bool(ps.calls(TOP_FROM_REQUEST)) and not badp and not lits,
-              "params argument: derives from from_request's result=%s, other callees=%s, constants=%d" % (bool(ps.calls(TOP_FROM_REQUEST)), sorted(set(b[0] for b in badp)), len(lits)), (hb, hbb))
-    pr = upvar_params(ds, hb, hb.slice(ht["args"][1]))
-    ctx.check(R, "handler-gets-the-same-rqctx", pr == set(rq) and not callee_allow(hb.slice(ht["args"][1]), PLUMBING),
+    def harg(k):
+        inner, op = hargs[k]
+        return inner + ([hb.slice(op)] if op is not None else []), (hb.slice(op) if op is not None else None)
+    sls, ps = harg(2)
+    badp = [b for sl in sls for b in callee_allow(sl, chain)]
+    lits = [a for sl in sls for a in sl.atoms if a[0] in ("lit", "const")]
+    from_ex = ps is not None and bool(ps.calls(TOP_FROM_REQUEST))
+    ctx.check(R, "handler-params-are-the-extracted-value", from_ex and not badp and not lits,
+              "params argument: derives from from_request's result=%s, other callees=%s, constants=%d" % (from_ex, sorted(set(b[0] for b in badp)), len(lits)), (hb, hbb))
+    sls, rs = harg(1)
+    pr = upvar_params(ds, hb, rs) if rs is not None else None
+    ctx.check(R, "handler-gets-the-same-rqctx", pr == set(rq) and not [b for sl in sls for b in callee_allow(sl, PLUMBING)],
               "rqctx argument of the handler call comes from handle_request params %s (want %s)" % (sorted(pr or []), rq), (hb, hbb))
-    hs = hb.slice(ht["args"][0])
-    ctx.check(R, "handler-is-the-registered-function", hs.reads_field("handler") and upvar_params(ds, hb, hs) == {1},
-              "receiver of the handler call is self.handler: %s" % hs.reads_field("handler"), (hb, hbb))
+    sls, hs = harg(0)
+    rf = any(sl.reads_field("handler") for sl in sls)
+    ctx.check(R, "handler-is-the-registered-function", rf and hs is not None and upvar_params(ds, hb, hs) == {1} and not [b for sl in sls for b in callee_allow(sl, PLUMBING)],
+              "receiver of the handler call is self.handler: %s" % rf, (hb, hbb))
 
 
 # ------------------------------------------------------------------------------------------------ R2
@@ -335,19 +343,25 @@ def r3_error_class(ctx):
     body = ds.body_of(lb)
     fm = body.live_calls(r"ApiEndpointBodyContentType::from_mime_type$")
     okm = False
+    how = "no test of from_mime_type's Result found"
     for bb, t in fm:
-        for mbb, mt in body.live_calls(r"Result::<T, E>::map_err$"):
-            if operand_local(mt["args"][0]) == t["dest"]["l"]:
-                for h, node in closure_args_of_call(body, mt):
-                    hs = h.slice({"l": 0, "p": []})
-                    okm = hs.has_call(r"for_bad_request$") and not callee_allow(hs, PLUMBING + [CLIENT_CTORS])
-    ctx.check(R, "unknown-mime-type-is-400", okm and len(fm) == 1, "from_mime_type's Err is mapped to for_bad_request: %s" % okm, body)
+        # whatever the idiom (`.map_err(..)?`, match + early return, let-else): the Err case of from_mime_type's Result
+        # produces for_bad_request and nothing else, and does not go on to decode the body
+        sp = result_split(body, t["dest"]["l"])
+        if sp is None:
+            continue
+        names = http_error_ctors_on_error_path(body, sp)
+        decodes = set(b for b, _ in body.live_calls(JSON_PARSER + "|" + URL_PARSER))
+        on = decodes & (body.reachable(sp["err"]) if sp["err"] is not None else set())
+        okm = names == {"error::HttpError::for_bad_request"} and not on
+        how = "Err case (%s) builds %s; body parsers reachable from it: %d" % ("/".join(sp["via"]), sorted(names), len(on))
+    ctx.check(R, "unknown-mime-type-is-400", okm and len(fm) == 1, "from_mime_type's Err is answered with for_bad_request: %s (%s)" % (okm, how), body)
 
 
 # ------------------------------------------------------------------------------------------------ R4
 def r4_panic_census(ctx):
     R = ctx.rule("C10.R4", "every potential panic site in the extraction region (explicit panics, unwrap/expect, indexing, listed panicking APIs, MIR Assert terminators) "
-                 "is on tables/c10_panics.txt with a reason; key = (function, kind, callee-or-assert-kind) with multiplicity", floor=8)
+                 "is on tables/c10_panics.txt with a reason; key = (enclosing named function, kind, callee-or-assert-kind) with multiplicity", floor=8)
     ds = ctx.ds
     info = extraction_region(ctx, R)
     table, bad = load_panic_table()
@@ -361,10 +375,12 @@ def r4_panic_census(ctx):
     for fid in sorted(info["region"]):
         f = ds.F[fid]
         foreign_body = f.raw["span"].startswith("/")
+        owners = census_owners(ds, f)
         for kind, what, exp, bb in panic_sites(f):
-            k = (norm_id(fid), "foreign-macro" if (foreign_body and exp) else kind, what)
-            seen[k] = seen.get(k, 0) + 1
-            where.setdefault(k, (f, bb))
+            for o in owners:
+                k = (norm_id(o), "foreign-macro" if (foreign_body and exp) else kind, what)
+                seen[k] = seen.get(k, 0) + 1
+                where.setdefault(k, (f, bb))
     nfn = len(info["region"])
     for k in sorted(seen):
         fid, kind, what = k
@@ -550,6 +566,49 @@ _LOAD_BODY_HV = """            hv.to_str().map_err(|e| {
                 )
             })"""
 
+_GENERIC_NOW = """        let funcparams = RequestExtractor::from_request(&rqctx, request)
+            .await
+            .map_err(<HandlerType::Error>::from)?;
+        let future = self.handler.handle_request(rqctx, funcparams);
+        future.await
+    }
+}
+"""
+_GENERIC_HELPER = """        let extracted: Result<FuncParams, HttpError> =
+            RequestExtractor::from_request(&rqctx, request).await;
+        let handler_args = match extracted {
+            Ok(args) => args,
+            Err(extract_error) => {
+                let handler_error = <HandlerType::Error>::from(extract_error);
+                return Err(HandlerError::from(handler_error));
+            }
+        };
+        self.invoke_handler(rqctx, handler_args).await
+    }
+}
+"""
+_PUBLIC_IFACE = """
+// Public interfaces
+"""
+_HELPER = """
+impl<Context, HandlerType, FuncParams, ResponseType>
+    HttpRouteHandler<Context, HandlerType, FuncParams, ResponseType>
+where
+    Context: ServerContext,
+    HandlerType: HttpHandlerFunc<Context, FuncParams, ResponseType>,
+    FuncParams: RequestExtractor + 'static,
+    ResponseType: HttpResponse + Send + Sync + 'static,
+{
+    async fn invoke_handler(
+        &self,
+        rqctx: RequestContext<Context>,
+        handler_args: FuncParams,
+    ) -> Result<Response<Body>, HandlerError> {
+        self.handler.handle_request(rqctx, handler_args).await
+    }
+}
+"""
+
 SELFTEST = [
     {"name": "path-error-500", "kind": "mutant",
      "edits": [("dropshot/src/http_util.rs",
@@ -583,6 +642,17 @@ SELFTEST = [
     {"name": "mime-slice-off-by-one", "kind": "mutant",
      "edits": [("dropshot/src/extractor/body.rs", "content_type[..end].trim_end()", "content_type[..end + 1].trim_end()")],
      "expect": ["C10.R4"], "why": "a Content-Type without parameters slices past the end and panics (new overflow/bounds site)"},
+    {"name": "handler-call-in-async-helper", "kind": "benign",
+     "edits": [("dropshot/src/handler.rs", _GENERIC_NOW, _GENERIC_HELPER), ("dropshot/src/handler.rs", _PUBLIC_IFACE, _HELPER + _PUBLIC_IFACE)],
+     "why": "behaviour-preserving: `?` spelled as match + early return and the handler call moved into a private async helper (not inlinable: its body is a coroutine)"},
+    {"name": "path-error-closure-as-match-and-helper", "kind": "benign",
+     "edits": [("dropshot/src/http_util.rs", "    from_map(path_params).map_err(|message| {", "    let decoded: Result<T, String> = from_map(path_params);\n    match decoded {\n        Ok(params) => Ok(params),\n        Err(reason) => Err(path_params_error(&reason)),\n    }\n}\n\nfn path_params_error(message: &str) -> HttpError {\n    {"),
+               ("dropshot/src/http_util.rs", "            format!(\"bad parameter in URL path: {}\", message),\n        )\n    })\n}", "            format!(\"bad parameter in URL path: {}\", message),\n        )\n    }\n}")],
+     "why": "behaviour-preserving: the map_err closure (with its reviewed assert!) becomes a match arm calling a private helper; the census key stays with the enclosing function"},
+    {"name": "mime-lookup-match-early-return", "kind": "benign",
+     "edits": [("dropshot/src/extractor/body.rs", "        ApiEndpointBodyContentType::from_mime_type(&mime_type)\n            .map_err(|e| HttpError::for_bad_request(None, e))?;",
+                "        match ApiEndpointBodyContentType::from_mime_type(&mime_type) {\n            Ok(known) => known,\n            Err(unknown) => {\n                return Err(HttpError::for_bad_request(None, unknown));\n            }\n        };")],
+     "why": "behaviour-preserving: `.map_err(..)?` spelled as match with early return"},
     {"name": "unit-tuple-match-instead-of-try", "kind": "benign",
      "edits": [("dropshot/src/extractor/common.rs", "        Ok((X::from_request(rqctx, request).await?,))",
                 "        match X::from_request(rqctx, request).await {\n            Ok(x) => Ok((x,)),\n            Err(e) => Err(e),\n        }")],
